@@ -673,6 +673,9 @@ class _Instrumented:
     * `QMI_Context.make_unique_token` is wrapped to log every automatically generated token per context instance;
     * logging of qmi.* is silenced."""
 
+    def __init__(self, silence: bool = True):
+        self.silence = silence       # False: the logging configuration under test stays in force
+
     def __enter__(self):
         import qmi.core.rpc as rpc
         import qmi.core.context as qctx
@@ -727,7 +730,8 @@ class _Instrumented:
         threading.excepthook = hook
         qctx.QMI_Context.make_unique_token = logged_mut
         self.prev_disable = logging.root.manager.disable
-        logging.disable(logging.CRITICAL)
+        if self.silence:
+            logging.disable(logging.CRITICAL)
         _state["instr"] = self
         return self
 
@@ -858,12 +862,27 @@ class _World:
 
     def stop(self):
         _state["world"] = None
-        for c in reversed(self.contexts):
-            try:
-                if getattr(c, "_active", True):
-                    c.stop()
-            except Exception:
-                pass
+        # the harness's own clean-up must not depend on the logging configuration under test (a wedged log filter would
+        # block the INFO lines of context.stop() for ever), nor on a worker that is alive but stuck (context.stop() joins it)
+        prev_disable = logging.root.manager.disable
+        logging.disable(logging.CRITICAL)
+        try:
+            stuck = [nm for nm, t in self.workers.items() if t.is_alive()] if getattr(self, "stuck", False) else []
+            for c in reversed(self.contexts):
+                try:
+                    if c is getattr(self, "srv", None) and stuck:
+                        # leave the owning context alone (daemon threads); only cut its connections so that clients can go
+                        try:
+                            c._message_router.stop()
+                        except Exception:
+                            pass
+                        continue
+                    if getattr(c, "_active", True):
+                        c.stop()
+                except Exception:
+                    pass
+        finally:
+            logging.disable(prev_disable)
         reg = _obj_class().registry
         reg.pop((id(self.srv), "obj"), None)
         reg.pop((id(self.srv), "other"), None)
@@ -876,6 +895,11 @@ class _World:
             if kind == "recreate":          # the owning context removes the object and creates it again under the same name
                 self.srv.remove_rpc_object(self.owner_proxy["obj"])
                 self._make_object("obj")
+                return "ok"
+            if kind == "pause":             # time passes (the stepped clock of the logging slice is advanced; nothing else happens)
+                hook = _state.get("pause_hook")
+                if hook is not None:
+                    hook()
                 return "ok"
             if kind == "setcounter":        # stands for (value - counter) further make_unique_token() calls in that context
                 cx = self.contexts[op[1]]
@@ -906,7 +930,9 @@ class _World:
                 self.burners[ci].lock()
                 return "ok"
             px = self.proxies[op[1]]
-            if kind == "lock":
+            if kind == "locktimeout":       # lock(timeout > 0): polls every 100 ms (real time here); one token, denied throughout
+                r = px.lock(timeout=op[2] / 1000.0)
+            elif kind == "lock":
                 r = px.lock(lock_token=op[2])
             elif kind == "unlock":
                 r = px.unlock(lock_token=op[2])
@@ -949,6 +975,7 @@ class _World:
         except QMI_RpcTimeoutException:
             w = self.workers["obj"]
             if w.is_alive():
+                self.stuck = True
                 return "stuck"
             return "dead:" + _state["instr"].thread_deaths.get(w, "?")
         except Exception as e:  # noqa
@@ -973,6 +1000,10 @@ def _op_line(op) -> str:
         return "recreate"
     if k == "setcounter":
         return f"burnto {op[1]} {op[2]}"
+    if k == "locktimeout":              # to the model: one token made, every attempt denied or the first one granted
+        return f"lock {op[1]} -"
+    if k == "pause":
+        return "probe"
     return f"{k} {op[1]}"
 
 
@@ -1022,12 +1053,15 @@ def run_history(hist: dict):
                 # ends here, the oracle reports it
                 trace.append(ev)
                 break
-            if op[0] not in ("burn", "recreate", "stopctx", "newctx", "newproxy", "setcounter") and op[1] < len(w.proxies):
+            if op[0] == "pause":
+                lines.pop(-3)                            # no model step for the passing of time: only `probe`, `owner`
+                outs.pop(-3)
+            if op[0] not in ("burn", "recreate", "stopctx", "newctx", "newproxy", "setcounter", "pause") and op[1] < len(w.proxies):
                 t = w.toks(op[1])
                 ev["toks"] = t
                 lines.append(f"tok {op[1]}")
                 outs.append(_show_tok(t[0]) + " " + _show_tok(t[1]))
-                if op[0] == "lock" and op[2] is None:
+                if (op[0] == "lock" and op[2] is None) or op[0] == "locktimeout":
                     ci = w.pctx[op[1]]
                     lines.append(f"counter {ci}")
                     outs.append(str(w.contexts[ci]._unique_counters.get("$lock_", 0)))
@@ -1129,6 +1163,10 @@ def oracle(hist: dict, trace: list):
         if kind in ("newctx", "newproxy") and not out.isdigit():
             return F(f"request-unanswered:{kind}:{st}" if out == "hang" else f"unexpected-result:{kind}:{st}:{out}",
                      f"a client could not {'connect' if kind == 'newctx' else 'obtain a proxy'}: {out}")
+        if kind == "pause":
+            if before != after:
+                return F("lock-changed-by-passing-time", f"owner {before} -> {after}")
+            continue
         if kind in ("stopctx", "newctx", "newproxy", "setcounter"):
             if before != after:
                 which = {"stopctx": "lock-changed-by-disconnect", "newctx": "lock-changed-by-connect", "newproxy": "lock-changed-by-new-proxy",
@@ -1146,6 +1184,9 @@ def oracle(hist: dict, trace: list):
             continue
         p = op[1]
         ci = pctx[p]
+        if kind == "locktimeout":
+            op = ["lock", op[1], None]
+            kind = "lock"
         if kind == "lock":
             custom = op[2]
             serial += 1
@@ -2252,6 +2293,123 @@ def shutdown_oracle(spec: dict, obs: dict) -> list:
     return fails
 
 
+# ---------------------------------------------------------------------------
+# logging-configuration slice: the lock path logs (every denied lock / unlock, every refused call, every grant); the
+# property quantifies over configurations, so a logging configuration must not be able to hang or disable the object
+# ---------------------------------------------------------------------------
+
+LOG_CONFIGS = ("console-warning", "console-debug", "file-ratelimit", "file")
+LOG_BURST = 2
+
+
+class _logging_config:
+    """`qmi.core.logging_init.start_logging` with one configuration, in a private temp dir, console output into a sink; the
+    clock seen by logging_init is a stepped one (advanced a little by every reading, a lot by the `pause` op), so the rate
+    limiter's bucket runs empty and refills deterministically.  Everything is put back afterwards."""
+
+    def __init__(self, cfg: str):
+        self.cfg = cfg
+
+    def __enter__(self):
+        import os as _os
+        import sys as _sys
+        import tempfile
+        import types
+        import warnings
+        import qmi.core.logging_init as li
+        self.li = li
+        root = logging.getLogger()
+        self.saved = {
+            "handlers": list(root.handlers), "filters": list(root.filters), "level": root.level, "disable": logging.root.manager.disable,
+            "file_handler": li._file_handler, "except_hook_saved": li._saved_except_hook, "excepthook": _sys.excepthook,
+            "warn_filters": list(warnings.filters), "capture": logging._warnings_showwarning is not None,
+            "levels": {n: logging.getLogger(n).level for n in list(logging.root.manager.loggerDict) if n.startswith("qmi")},
+            "time": li.time, "pause_hook": _state.get("pause_hook"),
+        }
+        self.tmp = tempfile.TemporaryDirectory()
+        self.sink = open(_os.devnull, "w")
+        for h in list(root.handlers):
+            root.removeHandler(h)
+        li._file_handler = None
+        clock = {"t": 1000.0}
+        real_time = self.saved["time"]
+        shim = types.ModuleType("stepped_time")
+
+        def monotonic():
+            clock["t"] += 0.0005
+            return clock["t"]
+        shim.monotonic = monotonic
+        shim.__getattr__ = lambda name: getattr(real_time, name)
+        li.time = shim
+        _state["pause_hook"] = lambda: clock.__setitem__("t", clock["t"] + 600.0)
+        logging.disable(logging.NOTSET)
+        stderr = _sys.stderr
+        _sys.stderr = self.sink                       # the console handler binds sys.stderr when it is created
+        try:
+            logfile = _os.path.join(self.tmp.name, "qmi.log")
+            if self.cfg == "console-warning":
+                li.start_logging()
+            elif self.cfg == "console-debug":
+                li.start_logging(loglevel=logging.DEBUG, console_loglevel=logging.DEBUG)
+            elif self.cfg == "file-ratelimit":
+                li.start_logging(loglevel=logging.INFO, logfile=logfile, rate_limit=1.0, burst_limit=LOG_BURST)
+            else:
+                li.start_logging(loglevel=logging.DEBUG, logfile=logfile)
+        finally:
+            _sys.stderr = stderr
+        self.logfile = logfile
+        return self
+
+    def __exit__(self, *a):
+        import sys as _sys
+        import warnings
+        li, sv = self.li, self.saved
+        logging.disable(logging.CRITICAL)                # nothing of ours may go through the configuration any more
+        root = logging.getLogger()
+        for h in list(root.handlers):
+            root.removeHandler(h)
+            try:
+                h.close()
+            except Exception:
+                pass
+        for h in sv["handlers"]:
+            root.addHandler(h)
+        root.filters[:] = sv["filters"]
+        root.setLevel(sv["level"])
+        for n, lv in sv["levels"].items():
+            logging.getLogger(n).setLevel(lv)
+        li._file_handler = sv["file_handler"]
+        li._saved_except_hook = sv["except_hook_saved"]
+        _sys.excepthook = sv["excepthook"]
+        if not sv["capture"]:
+            logging.captureWarnings(False)
+        warnings.filters[:] = sv["warn_filters"]
+        li.time = sv["time"]
+        _state["pause_hook"] = sv["pause_hook"]
+        logging.disable(sv["disable"])
+        try:
+            self.sink.close()
+        except Exception:
+            pass
+        self.tmp.cleanup()
+        return False
+
+
+def logging_histories() -> list:
+    """Representative lock scenarios with more denied requests in a row than the burst limit, a pause that lets the bucket
+    refill, more denied requests, polling with lock(timeout), and the owner's unlock / somebody's force_unlock at the end.
+    contexts: srv, cliA, cliB; proxies A (ctx 1), B (ctx 2), S (ctx 0)."""
+    A, B, S = 0, 1, 2
+    denied = [["lock", B, None], ["unlock", B, None], ["call", B, "b"], ["lock", S, "x"], ["unlock", S, "x"], ["call", S, "n"], ["islocked", B]]
+    H = []
+    for tail in ([["unlock", A, None], ["islocked", S], ["lock", B, None], ["call", B, "b"]],
+                 [["force", S], ["islocked", B], ["call", A, "b"], ["lock", B, "x"], ["lock", A, None], ["unlock", B, "x"]]):
+        ops = [["lock", A, None], ["call", A, "b"]] + denied + [["pause"]] + denied[:4] + [["locktimeout", B, 250]] + [["pause"]] \
+              + [["call", B, "w"], ["unlock", B, None], ["lock", B, None]] + tail
+        H.append({"srv": "srv", "ctxs": ["cliA", "cliB"], "proxies": [1, 2, 0], "ops": ops})
+    return H
+
+
 def live_queue_bounds() -> list:
     """Finite bounds of the live worker queue and every MAX_* integer of rpc.py / _RpcThread, read on this run."""
     import qmi.core.rpc as rpc
@@ -2822,6 +2980,29 @@ class C04(Prop):
                 for (sig, detail) in run_long_poll(n):
                     res.failures.append(Failure(sig, f"{sig}: {detail}", {"kind": "longpoll", "n": n, "signature": sig}))
 
+    # -- logging-configuration slice --------------------------------------------------------------------
+    def _logging_family(self, ctx: Ctx, res: Result):
+        for cfg in LOG_CONFIGS:
+            failures: dict = {}
+            sub = Result()
+            try:
+                with _logging_config(cfg):
+                    with _Instrumented(silence=False):
+                        for h in logging_histories():
+                            self._run_batch(ctx, [h], sub, f"logging:{cfg}", failures)
+                            if failures:
+                                break        # whatever went wrong may have wedged the logging machinery of this configuration
+            except Exception as e:  # noqa
+                failures.setdefault(f"scenario-aborted:{type(e).__name__}:logging:{cfg}", []).append((logging_histories()[0], f"{type(e).__name__}: {str(e)[:200]}"))
+            sub.samples = []
+            res.merge(sub)
+            res.count(f"logging_config_{cfg}")
+            for sig, lst in failures.items():
+                h, detail = lst[0]
+                res.failures.append(Failure(f"{sig}:logging={cfg}", f"{sig} under logging configuration {cfg}: ops={h['ops']}: {detail}",
+                                            {"kind": "logcfg", "config": cfg, "history": {k: v for k, v in h.items() if k != "cell"},
+                                             "signature": f"{sig}:logging={cfg}"}))
+
     # -- fresh-process family ------------------------------------------------------------------------
     def _fresh_process_family(self, ctx: Ctx, res: Result):
         for (k, names) in ((ALIGN_SEED, ["measure", "measure"]), (0, ["cli"])):
@@ -2859,6 +3040,7 @@ class C04(Prop):
         self._conc_family(ctx, res, ctx.quick)
         self._retry_family(ctx, res, ctx.quick)
         self._fresh_process_family(ctx, res)
+        self._logging_family(ctx, res)
         self._token_family(ctx, res)
         self._fault_family(ctx, res, ctx.quick)
         # malformed driver input
@@ -2950,6 +3132,18 @@ class C04(Prop):
                 return None
             sig, detail = next(((s_, d) for (s_, d) in fs if s_ == rp.get("signature")), fs[0])
             return Failure(sig, f"{sig}: {detail}", rp)
+        if rp.get("kind") == "logcfg":
+            h = rp["history"]
+            with _logging_config(rp["config"]):
+                with _Instrumented(silence=False):
+                    try:
+                        _, _, tr = run_history(h)
+                    except Exception as e:  # noqa
+                        return Failure(f"scenario-aborted:{type(e).__name__}:logging={rp['config']}", str(e), rp)
+                    fs = oracle(h, tr)
+            if not fs:
+                return None
+            return Failure(f"{fs[0][0]}:logging={rp['config']}", f"{fs[0][0]}: {fs[0][1]}", rp)
         if rp.get("kind") == "tokens":
             fs = token_boundary_oracle(run_token_boundaries()[2])
             return Failure(fs[0][0], f"{fs[0][0]}: {fs[0][1]}", rp) if fs else None
